@@ -57,13 +57,39 @@ type bounds struct {
 	leaves, unary, depth int
 }
 
-func enumerateCases(tier core.Tier) (cases []caseSpec, b bounds) {
-	b = bounds{leaves: 3, unary: 2, depth: 3}
+func boundsOf(tier core.Tier) bounds {
 	if tier == core.Thorough {
-		b = bounds{leaves: 4, unary: 2, depth: 4}
+		return bounds{leaves: 4, unary: 2, depth: 4}
+	}
+	return bounds{leaves: 3, unary: 2, depth: 3}
+}
+
+// parse cache: many different terms emit the same text (one-element lists and redundant wrappers vanish)
+var parseCache = map[string]*cypher.RegularQuery{}
+
+func parseTextCached(text string) (*cypher.RegularQuery, error) {
+	if q, ok := parseCache[text]; ok {
+		return q, nil
+	}
+	q, err := parseText(text)
+	if err == nil {
+		if len(parseCache) > 40000 {
+			parseCache = map[string]*cypher.RegularQuery{}
+		}
+		parseCache[text] = q
+	}
+	return q, err
+}
+
+// enumerateCases streams every case of the tier to yield, in a fixed order (the index of a case is its identity for
+// sharding and for witness selection). Nothing is materialised: the thorough tier has millions of cases.
+func enumerateCases(tier core.Tier, yield func(i int, c caseSpec)) (total int) {
+	emitCase := func(c caseSpec) {
+		yield(total, c)
+		total++
 	}
 	retN, retR := "query.Returning(query.Node())", "query.Returning(query.Relationship())"
-	// 1. every leaf constructor x value, alone, under query.Not, and next to a second leaf under query.And
+	// 1. every leaf constructor x value, alone and negated
 	for _, id := range leafOrder {
 		fam := leafFamily[id]
 		if strings.HasPrefix(id, "v2:") {
@@ -71,38 +97,27 @@ func enumerateCases(tier core.Tier) (cases []caseSpec, b bounds) {
 			if fam == "r" {
 				tail = ".Return(v2.Relationship())"
 			}
-			cases = append(cases, caseSpec{Path: "v2", Where: leaf(id), Tail: tail})
-			cases = append(cases, caseSpec{Path: "v2", Where: &term{Op: "v.Not", Args: []*term{leaf(id)}}, Tail: tail})
+			emitCase(caseSpec{Path: "v2", Where: leaf(id), Tail: tail})
+			emitCase(caseSpec{Path: "v2", Where: &term{Op: "v.Not", Args: []*term{leaf(id)}}, Tail: tail})
 			continue
 		}
 		tail := retN
 		if fam == "r" {
 			tail = retR
 		}
-		cases = append(cases, caseSpec{Path: "neo4j", Where: leaf(id), Tail: tail})
-		cases = append(cases, caseSpec{Path: "neo4j", Where: &term{Op: "q.Not", Args: []*term{leaf(id)}}, Tail: tail})
+		emitCase(caseSpec{Path: "neo4j", Where: leaf(id), Tail: tail})
+		emitCase(caseSpec{Path: "neo4j", Where: &term{Op: "q.Not", Args: []*term{leaf(id)}}, Tail: tail})
 	}
-	// 2. boolean skeletons
-	for _, sk := range skeletons(b.leaves, b.unary, b.depth, listOps, unaryOps) {
-		cases = append(cases, caseSpec{Path: "neo4j", Where: instantiate(sk, nodeAssign), Tail: retN})
-		cases = append(cases, caseSpec{Path: "neo4j", Where: instantiate(sk, relAssign), Tail: retR})
-		if tier == core.Thorough {
-			cases = append(cases, caseSpec{Path: "neo4j", Where: instantiate(sk, nodeRot), Tail: retN})
-		}
-	}
-	for _, sk := range skeletons(b.leaves, b.unary, b.depth, v2List, v2Unary) {
-		cases = append(cases, caseSpec{Path: "v2", Where: instantiate(sk, v2Node), Tail: ".Return(v2.Node())"})
-		cases = append(cases, caseSpec{Path: "v2", Where: instantiate(sk, v2Rel), Tail: ".Return(v2.Relationship())"})
-	}
-	// 3. projections, order, skip, limit, updating clauses (with and without a WHERE)
+	// 2. projections, order, skip, limit, updating clauses (with and without a WHERE)
 	for _, id := range tailOrder {
 		var w *term
-		if !strings.Contains(id, "Relationship") && !strings.Contains(id, "Start()") {
+		// a WHERE on n together with a CREATE of n asks for nothing meaningful (n would be both matched and created)
+		if !strings.Contains(id, "Relationship") && !strings.Contains(id, "Start()") && !strings.Contains(id, "query.Create(") {
 			w = leaf(nodeAssign[0])
 		}
-		cases = append(cases, caseSpec{Path: "neo4j", Where: w, Tail: id})
+		emitCase(caseSpec{Path: "neo4j", Where: w, Tail: id})
 		if w != nil {
-			cases = append(cases, caseSpec{Path: "neo4j", Tail: id})
+			emitCase(caseSpec{Path: "neo4j", Tail: id})
 		}
 	}
 	for _, id := range v2tailOrder {
@@ -110,29 +125,67 @@ func enumerateCases(tier core.Tier) (cases []caseSpec, b bounds) {
 		if !strings.Contains(id, "Relationship") {
 			w = leaf(v2Node[0])
 		}
-		cases = append(cases, caseSpec{Path: "v2", Where: w, Tail: id})
+		emitCase(caseSpec{Path: "v2", Where: w, Tail: id})
 		if w != nil {
-			cases = append(cases, caseSpec{Path: "v2", Tail: id})
+			emitCase(caseSpec{Path: "v2", Tail: id})
 		}
 	}
-	// 4. texts: generated fully parenthesised boolean texts and the repository corpora, through format.RegularQuery and
+	// 3. texts: generated fully parenthesised boolean texts and the repository corpora, through format.RegularQuery and
 	// through the driver's rewrite (with a pattern property parameter so that the re-emission really happens)
-	var texts []string
-	for _, sk := range skeletons(b.leaves, 1, b.depth, []string{"t.and", "t.or", "t.xor"}, []string{"t.not", "t.paren"}) {
-		texts = append(texts, "match (n $props) where "+renderText(sk, textLeaves)+" return n")
-	}
-	for _, lit := range []string{"0", "-1", "1.0", "1.5", "1e21", "''", `'a\'b'`, `'a\\'`, "true", "null", "[]", "[1, 'a']", "1.0e-3", "0.5"} {
-		texts = append(texts, "match (n $props) where n.a = "+lit+" return n order by n.a desc skip 1 limit 2")
-	}
-	texts = append(texts, corpusTexts(repoRoot())...)
-	for _, t := range texts {
+	text := func(t string) {
 		if _, err := parseText(t); err != nil {
-			continue
+			return
 		}
-		cases = append(cases, caseSpec{Path: "format", Query: t})
-		cases = append(cases, caseSpec{Path: "rewrite", Query: t, Params: paramsFor(t)})
+		emitCase(caseSpec{Path: "format", Query: t})
+		emitCase(caseSpec{Path: "rewrite", Query: t, Params: paramsFor(t)})
 	}
-	return
+	skeletons(1, 3, 1, 3, []string{"t.and", "t.or", "t.xor"}, []string{"t.not", "t.paren"}, func(sk *term) {
+		text("match (n $props) where " + renderText(sk, textLeaves) + " return n")
+	})
+	for _, lit := range []string{"0", "-1", "1.0", "1.5", "1e21", "''", `'a\'b'`, `'a\\'`, "true", "null", "[]", "[1, 'a']", "1.0e-3", "0.5"} {
+		text("match (n $props) where n.a = " + lit + " return n order by n.a desc skip 1 limit 2")
+	}
+	for _, t := range corpusTexts(repoRoot()) {
+		text(t)
+	}
+	// 4. boolean skeletons. Up to 3 leaves with up to 2 wrappers: every instantiation and both builders. The thorough tier
+	// adds the 4-leaf terms: with up to 2 wrappers for the node family on the stable builder, with up to 1 wrapper for the
+	// other instantiations and for v2.
+	stable := func(assign []string, tail string) func(*term) {
+		return func(sk *term) { emitCase(caseSpec{Path: "neo4j", Where: instantiate(sk, assign), Tail: tail}) }
+	}
+	fluent := func(assign []string, tail string) func(*term) {
+		return func(sk *term) { emitCase(caseSpec{Path: "v2", Where: instantiate(sk, assign), Tail: tail}) }
+	}
+	skeletons(1, 3, 2, 3, listOps, unaryOps, func(sk *term) {
+		stable(nodeAssign, retN)(sk)
+		stable(relAssign, retR)(sk)
+		if tier == core.Thorough {
+			stable(nodeRot, retN)(sk)
+		}
+	})
+	skeletons(1, 3, 2, 3, v2List, v2Unary, func(sk *term) {
+		fluent(v2Node, ".Return(v2.Node())")(sk)
+		fluent(v2Rel, ".Return(v2.Relationship())")(sk)
+	})
+	if tier == core.Thorough {
+		skeletons(1, 3, 2, 4, listOps, unaryOps, func(sk *term) {
+			if sk.depth() == 4 { // the depth-4 terms over <= 3 leaves that the quick bound leaves out
+				stable(nodeAssign, retN)(sk)
+				stable(relAssign, retR)(sk)
+			}
+		})
+		skeletons(4, 4, 2, 4, listOps, unaryOps, stable(nodeAssign, retN))
+		skeletons(4, 4, 1, 4, listOps, unaryOps, func(sk *term) {
+			stable(relAssign, retR)(sk)
+			stable(nodeRot, retN)(sk)
+		})
+		skeletons(4, 4, 1, 4, v2List, v2Unary, func(sk *term) {
+			fluent(v2Node, ".Return(v2.Node())")(sk)
+			fluent(v2Rel, ".Return(v2.Relationship())")(sk)
+		})
+	}
+	return total
 }
 
 // paramsFor supplies a value for every parameter of a text: a property map for pattern property parameters, 1 otherwise.
@@ -211,7 +264,7 @@ func judge(c caseSpec) verdict {
 	if v.em.refused != "" {
 		return v
 	}
-	tq, err := parseText(v.em.text)
+	tq, err := parseTextCached(v.em.text)
 	if err != nil {
 		msg := err.Error()
 		if len(msg) > 300 {
@@ -220,6 +273,8 @@ func judge(c caseSpec) verdict {
 		class := "emitted-text-does-not-parse"
 		if hasEmptyKindList(v.em.m.q) {
 			class = "empty-kind-list-emitted-as-invalid-cypher"
+		} else if strings.Contains(v.em.text, "(())") {
+			class = "relationship-kind-test-hoist-leaves-empty-parentheses"
 		} else if hasIntegralFloatLiteral(v.em.m.q) && strings.Contains(msg, "invalid integer literal") {
 			class = "float-literal-emitted-as-integer" // same root cause: the float is printed without a decimal point, here too large for an integer
 		}
@@ -229,6 +284,18 @@ func judge(c caseSpec) verdict {
 	v.tq = tq
 	if p := core.Try(func() { v.diff, v.stats = compare(v.em.m, side{q: tq, params: v.em.params}) }); p != nil {
 		core.Fatalf("c10: comparison panicked on %s: %v", c, p)
+	}
+	if v.diff != nil && rawOps(c.Where) > 0 {
+		// A lost grouping has two possible root causes: a combinator of package query / v2 that forgets the Parenthetical
+		// it is supposed to add, or the emitter meeting a bare nested connective that only raw cypher-model constructors
+		// can produce. They get different class names so that one cannot hide the other.
+		parts := strings.Split(v.diff.class, "+")
+		for i, p := range parts {
+			if strings.HasSuffix(p, "-grouping-lost") || p == "stacked-not-read-back-as-single-not" {
+				parts[i] = p + "-raw-model"
+			}
+		}
+		v.diff.class = strings.Join(parts, "+")
 	}
 	return v
 }
@@ -242,7 +309,7 @@ func main() {
 		replay(run)
 		return
 	}
-	cases, b := enumerateCases(run.Tier)
+	b := boundsOf(run.Tier)
 	hashDir, err := os.MkdirTemp("", "verif-c10-")
 	if _, _, isWorker := run.Worker(); isWorker {
 		hashDir = os.Getenv("VERIF_C10_HASHDIR")
@@ -293,12 +360,26 @@ func main() {
 			}
 		}
 		classes := make([]string, 0, len(best))
+		wanted := map[int]caseSpec{}
 		for c := range best {
 			classes = append(classes, c)
+			wanted[best[c].idx] = caseSpec{}
 		}
 		sort.Strings(classes)
+		// second pass over the enumeration: fetch the witnesses and three samples by index
+		total := enumerateCases(run.Tier, func(int, caseSpec) {})
+		sampleIdx := map[int]bool{0: true, total / 2: true, total - 1: true}
+		samples := map[int]caseSpec{}
+		enumerateCases(run.Tier, func(i int, c caseSpec) {
+			if _, ok := wanted[i]; ok {
+				wanted[i] = c
+			}
+			if sampleIdx[i] {
+				samples[i] = c
+			}
+		})
 		for _, c := range classes {
-			cs := cases[best[c].idx]
+			cs := wanted[best[c].idx]
 			v := judge(cs)
 			summary := "(not reproduced in the parent)"
 			if v.diff != nil {
@@ -310,22 +391,23 @@ func main() {
 		run.Set("violating_cases_by_class", perClass)
 		os.RemoveAll(hashDir)
 		run.Set("distinct_nontrivial", int64(len(distinct)))
-		run.Set("cases", int64(len(cases)))
+		run.Set("cases", int64(total))
 		run.Set("leaf_constructors_x_values", int64(len(leafOrder)))
 		run.Set("tails_stable_builder", int64(len(tailOrder)))
 		run.Set("tails_v2", int64(len(v2tailOrder)))
 		run.Set("max_leaves_bound", int64(b.leaves))
 		run.Set("max_unary_wrappers_bound", int64(b.unary))
 		run.Set("max_depth_bound", int64(b.depth))
-		run.Set("rule", fmt.Sprintf("all leaf constructors x value pool (alone and negated); all boolean terms with <= %d leaves, list nodes of 2-3 operands over {query.And/Or/Xor, cypher.NewConjunction/NewDisjunction/NewExclusiveDisjunction} (v2: {v2.And/Or, cypher.*}), <= %d unary wrappers {Not, NewNegation, NewParenthetical, one-element lists} anywhere, nesting depth <= %d, instantiated with node and relationship leaf sets; all Returning/Distinct x items x OrderBy x Limit x Offset and all updating-clause constructors; generated parenthesised texts and the repository corpora through format.RegularQuery and the driver rewrite. distinct_nontrivial = distinct (emitted text, parameter values) pairs among the judged cases that contain a WHERE, ORDER BY, SKIP, LIMIT or updating clause", b.leaves, b.unary, b.depth))
+		run.Set("rule", fmt.Sprintf("all leaf constructors x value pool (alone and negated); all boolean terms with <= %d leaves, list nodes of 2-3 operands over {query.And/Or/Xor, cypher.NewConjunction/NewDisjunction/NewExclusiveDisjunction} (v2: {v2.And/Or, cypher.*}), <= %d unary wrappers {Not, NewNegation, NewParenthetical, one-element lists} anywhere (4-leaf terms: 2 wrappers for the node family on the stable builder, 1 otherwise), nesting depth <= %d, instantiated with node and relationship leaf sets; all Returning/Distinct x items x OrderBy x Limit x Offset and all updating-clause constructors; generated parenthesised texts and the repository corpora through format.RegularQuery and the driver rewrite. distinct_nontrivial = distinct (emitted text, parameter values) pairs among the judged cases that contain a WHERE, ORDER BY, SKIP, LIMIT or updating clause", b.leaves, b.unary, b.depth))
 		run.Assume("the parser (frontend.ParseCypher) reads operator precedence correctly (NOT > AND > XOR > OR); C07 judges the parser")
 		run.Assume("the Neo4j null guard `(not (x CONTAINS s) or x is null)` added by ExpressionListRewriter is intended (the PostgreSQL translator mirrors it with coalesce) and is absorbed before comparison")
 		run.Assume("kind constraints of a named relationship pattern [r:A|B] and a kind test on r in WHERE are the same constraint (the Neo4j builder moves the latter into the former on purpose); they are compared inside the truth table")
 		run.Assume("the driver's temporal rewrite date(n.p) <op> date() and the expansion of a pattern property parameter into a map of per-key parameters are intended and normalised on both sides")
+		run.Assume("a kind test on the relationship variable is any-of whatever IsExclusive says (a relationship has one kind; the PostgreSQL translator ignores IsExclusive for edges)")
 		run.Assume("a builder or emitter that returns an error emits no text: nothing to judge (counted as emission_refused)")
-		for _, i := range []int{0, len(cases) / 2, len(cases) - 1} {
-			v := judge(cases[i])
-			run.Sample(map[string]any{"case": cases[i].String(), "text": v.em.text, "refused": v.em.refused})
+		for _, i := range []int{0, total / 2, total - 1} {
+			v := judge(samples[i])
+			run.Sample(map[string]any{"case": samples[i].String(), "text": v.em.text, "refused": v.em.refused})
 		}
 		run.Finish()
 	}
@@ -347,13 +429,13 @@ func main() {
 	var evals, refused, judged, unjudged, atoms, assignments int64
 	byPath := map[string]int64{}
 	capped := false
-	for i, c := range cases {
-		if !run.Mine(i) {
-			continue
+	enumerateCases(run.Tier, func(i int, c caseSpec) {
+		if !run.Mine(i) || capped {
+			return
 		}
-		if i%64 == 0 && run.TimeUp() {
+		if run.TimeUp() {
 			capped = true
-			break
+			return
 		}
 		evals++
 		v := judge(c)
@@ -362,7 +444,7 @@ func main() {
 			if dump != nil {
 				fmt.Fprintf(dump, "REFUSED\t%s\t%s\n", v.em.refused, c)
 			}
-			continue
+			return
 		}
 		byPath[c.Path]++
 		judged++
@@ -381,7 +463,7 @@ func main() {
 				fmt.Fprintf(dump, "VIOLATION\t%s\t%s\t%s\n", v.diff.class, c, v.em.text)
 			}
 		}
-	}
+	})
 	if capped {
 		run.Capped("internal deadline")
 	}
